@@ -215,6 +215,10 @@ class Roles:
         "ctor_type_name": "type_name", "nonterminal_name": "name", "tuple_field_symbol": "symbol",
         "table_state_count": "state_count", "table_action": "action", "table_goto": "goto",
         "table_set_action": "set_action", "table_set_goto": "set_goto", "symbol_accessor": "get_symbol_ident", "fieldset_len": "len",
+        "table_action_index": "action_index", "table_goto_index": "goto_index", "updater_update": "update", "updater_from_map": "from_map",
+        "machine_shift_dest": "get_shift_dest", "lookahead_as_quasiterminal": "as_quasiterminal",
+        "rule_indices_for_nonterminal": "get_rule_indices_for_nonterminal", "token_start": "start", "token_len": "content_len",
+        "builder_set_action": "set_action", "builder_set_goto": "set_goto",
     }
     CANONICAL_MANY = {"field_is_used": "is_used", "fieldset_has_used": "has_used_field"}
 
@@ -230,6 +234,24 @@ class Roles:
                 if f.name != canon_name:
                     out[f.name] = canon_name
         return out
+
+    @property
+    def fresh_name_fn(self):
+        """(preferred name: &str, a set of used names by &mut — as a parameter or inside `self`) -> String, testing
+        and extending that set"""
+        def pred(f):
+            ins, o = _sig(f)
+            if o != "std::string::String" or "&str" not in ins or "table_to_rust" not in (f.file or "") and False:
+                return False
+            if not any(t.startswith("&mut ") for t in ins):
+                return False
+            names = [short_path(c.rpath or "") for c in f.calls()]
+            return any(n.endswith("HashSet::contains") or n.endswith("HashSet::insert") for n in names) and any(n.endswith("HashSet::insert") for n in names)
+        return self._one("fresh_name_fn", pred)
+
+    @property
+    def file_defined_identifiers(self):
+        return self._one("file_defined_identifiers", lambda f: _self_is(f, "validated_file::File") and len(f.inputs) == 1 and _ty(f.output).startswith("std::collections::HashSet<std::string::String"))
 
     # ------------------------------------------------------------------ table builder
     @property
@@ -256,6 +278,28 @@ class Roles:
         return self._one("stage_machine", lambda f: f.kind == "Fn" and len(f.inputs) == 1 and "validated_file::File" in _ty(f.inputs[0]) and _ty(f.output).endswith("machine::Machine"))
 
     @property
+    def first_sets_entry(self):
+        """the function computing the FIRST sets of all nonterminals: (..) -> HashMap<String, FirstSet>"""
+        return self._one("first_sets_entry", lambda f: f.kind == "Fn" and "HashMap<" in _ty(f.output) and "FirstSet" in _ty(f.output) and not any("HashMap<" in _ty(i) for i in f.inputs))
+
+    def stage_fns(self, role):
+        """the non-derived local functions (closures included) reachable from the stage entry `role`, wherever they live"""
+        f = getattr(self, role)
+        if f is None:
+            return []
+        keys = self.mir.reachable_from([f.key], include_trait_impls=False)
+        out = []
+        for k in keys:
+            g = self.mir.fns[k]
+            if g.derived or "/parser.rs" in (g.file or ""):
+                continue
+            owner = g if g.kind != "Closure" else self.mir.fns.get(g.root or g.parent) or g
+            if owner.impl is not None and _head(owner.impl["self_ty"]).endswith("::Oset"):
+                continue  # the public ordered-set container (C18's subject) is not part of any stage
+            out.append(g)
+        return out
+
+    @property
     def stage_table(self):
         return self._one("stage_table", lambda f: f.kind == "Fn" and len(f.inputs) == 2 and "machine::Machine" in _ty(f.inputs[0]) and "validated_file::File" in _ty(f.inputs[1]) and "table::Table" in _ty(f.output) and "Result<" in _ty(f.output))
 
@@ -273,3 +317,45 @@ def roles_of(mir):
         _cache.clear()
         _cache[k] = Roles(mir)
     return _cache[k]
+
+
+# ---------------------------------------------------------------------- private types by structure
+CANONICAL_TYPES = ("TableBuilder", "SrcBuilder", "FirstSet", "DidChange", "IndexChange", "LeftBracketCount")
+
+
+def type_renames(adts, impls):
+    """{name of a private type in today's source: canonical name}, the type being found by its structure:
+    TableBuilder = the struct holding the (state, look-ahead) -> action hash map; SrcBuilder = the struct holding
+    references to the table and the validated file; FirstSet = {ordered set of terminal names, bool};
+    DidChange = the one-bool struct with `|=`; IndexChange = the private struct of two usize; LeftBracketCount = the
+    newtype of a NonZeroUsize.  A structure matched by several types (or none) is not renamed; the rules that need
+    it then fail closed on their anchors."""
+    def fields(a):
+        vs = a.get("variants", [])
+        return [f_["ty"].get("s", "") for f_ in vs[0]["fields"]] if a.get("kind") == "Struct" and len(vs) == 1 else None
+
+    bitor = {(im.get("self_ty") or {}).get("head") for im in impls if im.get("trait") in ("std::ops::BitOrAssign", "core::ops::BitOrAssign")}
+    found = {k: [] for k in CANONICAL_TYPES}
+    for a in adts:
+        fs = fields(a)
+        if fs is None or "/parser.rs" in str((a.get("span") or {}).get("at", "")):
+            continue
+        if any("HashMap<" in t and "table::Action" in t for t in fs):
+            found["TableBuilder"].append(a)
+        if any("table::Table" in t and t.startswith("&") for t in fs) and any("validated_file::File" in t and t.startswith("&") for t in fs):
+            found["SrcBuilder"].append(a)
+        if len(fs) == 2 and sorted("bool" if t == "bool" else ("oset" if ("Oset<" in t and "DollarlessTerminalName" in t) else "?") for t in fs) == ["bool", "oset"]:
+            found["FirstSet"].append(a)
+        if fs == ["bool"] and a["path"] in bitor:
+            found["DidChange"].append(a)
+        if fs == ["usize", "usize"] and not a.get("pub"):
+            found["IndexChange"].append(a)
+        if len(fs) == 1 and "NonZero" in fs[0] and "usize" in fs[0]:
+            found["LeftBracketCount"].append(a)
+    out = {}
+    for cname, l in found.items():
+        if len(l) == 1:
+            actual = l[0]["path"].rsplit("::", 1)[-1]
+            if actual != cname:
+                out[actual] = cname
+    return out
